@@ -598,6 +598,11 @@ impl<Writer: Write> Mp4Writer<Writer> {
         if sample_data.len() > u32::MAX as usize {
             return Err(Mp4WriterError::DurationOverflow);
         }
+        // An ADTS frame whose declared length equals its header length carries no audio:
+        // a zero-size sample would violate INV-004 when the sample size table is built.
+        if sample_data.is_empty() {
+            return Err(Mp4WriterError::InvalidAdts);
+        }
 
         if let Some(prev) = self.audio_prev_pts {
             if pts < prev {
